@@ -326,6 +326,12 @@ Proof.
 Qed.
 End PathText.
 
+Theorem reported_text lit re_search mt tm sp o d res :
+  o_anchors o = false -> seq_plain d = true ->
+  search_doc lit re_search mt tm sp o d = Ok res ->
+  forall h, In h res -> okl sp (h_loc h) = true -> h_path h = build_path sp (h_loc h).
+Proof. intros Ha Hp E. exact (search_doc_paths sp lit re_search mt tm o d res Ha Hp E). Qed.
+
 (* the guard of the resolve theorem implies the text guard *)
 Lemma safe_okl sp d l : pb_safe sp d l = true -> okl sp l = true.
 Proof.
